@@ -390,6 +390,10 @@ func (ef *ErrFlow) analyzeGraph(fn *Func, g *Graph, info *types.Info) []ErrFindi
 				continue
 			}
 			if idx, _ := callReturnsError(info, call); idx >= 0 && ef.CallImpure(info, call) {
+				if se, ok := call.Fun.(*ast.SelectorExpr); ok && se.Sel.Name == "Close" && onlyErrorReturnsFollow(g, info, v) {
+					// idiom: clean-up Close on an error path; the primary error is returned
+					continue
+				}
 				add(call, "discarded", CallName(info, call), "the error result is not looked at")
 			}
 		case *ast.DeferStmt:
@@ -717,4 +721,41 @@ func inMemoryType(t types.Type) bool {
 		return true
 	}
 	return false
+}
+
+// onlyErrorReturnsFollow reports whether every path from v to the function
+// exit ends in a return statement whose last result is not the nil constant
+// (i.e. v lies on an error path).
+func onlyErrorReturnsFollow(g *Graph, info *types.Info, v *V) bool {
+	reach := g.ReachFrom(v, false, nil)
+	n := 0
+	for x := range reach {
+		if x == g.Exit {
+			continue
+		}
+		rs, ok := x.AST.(*ast.ReturnStmt)
+		if !ok {
+			continue
+		}
+		n++
+		if len(rs.Results) == 0 {
+			return false
+		}
+		last := rs.Results[len(rs.Results)-1]
+		lt := info.TypeOf(last)
+		if IsNil(info, last) || lt == nil || !types.AssignableTo(lt, errType) {
+			return false
+		}
+	}
+	// the exit must only be reachable through those returns
+	if n == 0 {
+		return false
+	}
+	var rets []*V
+	for x := range reach {
+		if _, ok := x.AST.(*ast.ReturnStmt); ok {
+			rets = append(rets, x)
+		}
+	}
+	return !g.ReachFrom(v, false, AvoidVs(rets...))[g.Exit]
 }
